@@ -410,6 +410,22 @@ class Parser:
                 b = self.block()
                 stmts.append(("for", v, c, b))
                 continue
+            if self.at("match") or (self.at("if") and self.peek(1)[1] != "let"):
+                # a block-like expression in statement position is a complete statement: what follows it (even a
+                # parenthesis) starts the next one
+                save_ = self.i
+                e = self.primary(False)
+                if self.at("}"):
+                    tail = e
+                    continue
+                if self.opt(";"):
+                    stmts.append(("expr", e))
+                    continue
+                if self.peek()[1] in (".", "?", "as") or (self.peek()[0] == "op" and self.peek()[1] in ("+", "-", "*", "/", "==", "!=", "<", ">", "<=", ">=", "&&", "||")):
+                    self.i = save_       # used as an operand after all
+                else:
+                    stmts.append(("expr", e))
+                    continue
             e = self.expr()
             if self.at("=") or self.peek()[1] in ("+=", "-=", "*=", "/=", ">>=", "<<=", "|=", "&=", "^=", "%="):
                 op = self.peek()[1]
@@ -712,7 +728,163 @@ class Parser:
             self.eat("}")
             self.eat(")")
             return ("vstruct", segs, sname, flds)
+        if len(segs) == 2 and segs[0] in VTUPLE_ENUMS and self.at("("):
+            # `Enum::Variant(a, b)` of an enum that is specialized away before translation
+            self.i += 1
+            names = []
+            while not self.at(")"):
+                names.append(self.ident())
+                if not self.opt(","):
+                    break
+            self.eat(")")
+            return ("vtuple", segs, names)
         return ("path", segs)
+
+
+VTUPLE_ENUMS = set()
+
+
+def ast_subst(e, m):
+    """replace the variables named in `m` by expressions, everywhere in the tree"""
+    if isinstance(e, tuple):
+        if len(e) == 2 and e[0] == "var" and e[1] in m:
+            return m[e[1]]
+        return tuple(ast_subst(x, m) for x in e)
+    if isinstance(e, list):
+        return [ast_subst(x, m) for x in e]
+    return e
+
+
+def specialize_enums(fns, spec, key_fns):
+    """Monomorphization, before translation, over parameters of a small `enum` that only selects storage keys
+    (`spec`: {enum: {variant: [payload types]}}): a function `f(.., p: &Enum, ..)` becomes one function `f_Variant`
+    per variant (the payload as parameters), every `match p { .. }` is resolved, every call passes the variant
+    statically (a literal, a parameter, or a local bound to a literal), and the functions of `key_fns` — which only
+    compute a storage key from such a parameter — are inlined at their call sites."""
+    by = {f[1]: f for f in fns}
+    def st(e):
+        while isinstance(e, tuple) and e and e[0] in ("ref", "deref", "paren"):
+            e = e[1]
+        return e
+    def enum_pos(f):
+        return [i for i, (pn, pt, _) in enumerate(f[2]) if pt in spec]
+    spec_fns = {f[1]: enum_pos(f) for f in fns if enum_pos(f)}
+    def static_of(e, senv):
+        e = st(e)
+        if e[0] == "mcall" and e[2] == "clone" and not e[3]:
+            return static_of(e[1], senv)
+        if e[0] == "var" and e[1] in senv:
+            return senv[e[1]]
+        if e[0] == "path" and len(e[1]) == 2 and e[1][0] in spec and e[1][1] in spec[e[1][0]]:
+            return (e[1][0], e[1][1], [])
+        if e[0] == "call" and e[1][0] == "path" and len(e[1][1]) == 2 and e[1][1][0] in spec and e[1][1][1] in spec[e[1][1][0]]:
+            return (e[1][1][0], e[1][1][1], [sp(a, senv) for a in e[2]])
+        return None
+    def choose(arms, sv, senv):
+        for pat, body in arms:
+            if pat[0] == "path" and pat[1] == [sv[0], sv[1]]:
+                return sp(body, senv)
+            if pat[0] == "vtuple" and pat[1] == [sv[0], sv[1]]:
+                if len(pat[2]) != len(sv[2]):
+                    raise Unsupported("payload arity of " + sv[1])
+                return sp(ast_subst(body, dict(zip(pat[2], sv[2]))), senv)
+            if pat[0] == "wild":
+                return sp(body, senv)
+        raise Unsupported(f"no arm for {sv[0]}::{sv[1]}")
+    def sp_call(name, args, senv):
+        f = by[name]
+        pos = spec_fns.get(name, [])
+        # parameters of handle types (`e: &Env`) are part of `args` too: positions are those of the signature
+        if len(args) != len(f[2]):
+            raise Unsupported(f"call of {name} with {len(args)} arguments")
+        svs = {i: static_of(args[i], senv) for i in pos}
+        if any(v is None for v in svs.values()):
+            raise Unsupported(f"call of {name} with a variant that is not known statically")
+        if name in key_fns:
+            m, senv2 = {}, {}
+            for i, (pn, pt, _) in enumerate(f[2]):
+                if i in svs:
+                    senv2[pn] = svs[i]
+                else:
+                    m[pn] = sp(args[i], senv)
+            body = f[4]
+            if body[0] != "block" or body[1] or body[2] is None:
+                raise Unsupported(f"key function {name} with statements")
+            return sp(ast_subst(body[2], m), senv2)
+        new_args, suffix = [], ""
+        for i, a in enumerate(args):
+            if i in svs:
+                suffix += "_" + svs[i][1]
+                new_args.extend(svs[i][2])
+            else:
+                new_args.append(sp(a, senv))
+        return ("call", ("var", name + suffix), new_args)
+    def sp(e, senv):
+        if isinstance(e, list):
+            return [sp(x, senv) for x in e]
+        if not isinstance(e, tuple) or not e:
+            return e
+        if e[0] == "block":
+            senv = dict(senv)
+            out = []
+            for s_ in e[1]:
+                if s_[0] == "let":
+                    sv = static_of(s_[3], senv)
+                    if sv is not None:
+                        senv[s_[1]] = sv
+                        continue
+                    senv.pop(s_[1], None)
+                    ce = st(s_[3])
+                    if ce[0] == "call" and ce[1][0] == "var" and ce[1][1] in key_fns:
+                        # `let key = key_fn(p, a - 1);`: the computed arguments are named first (a storage key is
+                        # built from values, and `a - 1` is a checked subtraction)
+                        args2 = []
+                        for j_, a_ in enumerate(ce[2]):
+                            a0 = st(a_)
+                            if a0[0] in ("var", "num", "path") or static_of(a_, senv) is not None:
+                                args2.append(a_)
+                            else:
+                                tmp = f"{s_[1]}_arg{j_}"
+                                out.append(("let", tmp, False, sp(a_, senv), None))
+                                args2.append(("var", tmp))
+                        s_ = (s_[0], s_[1], s_[2], ("call", ce[1], args2), s_[4])
+                r_ = sp(s_, senv)
+                if r_[0] == "expr" and isinstance(r_[1], tuple) and r_[1] and r_[1][0] == "block" and r_[1][2] is None:
+                    out.extend(r_[1][1])      # a resolved `match` in statement position: its arm's statements
+                    continue
+                out.append(r_)
+            return ("block", out, sp(e[2], senv) if e[2] is not None else None)
+        if e[0] == "match":
+            sv = static_of(e[1], senv)
+            if sv is not None:
+                return choose(e[2], sv, senv)
+        if e[0] == "call" and e[1][0] == "var" and e[1][1] in by and (e[1][1] in spec_fns or e[1][1] in key_fns):
+            return sp_call(e[1][1], e[2], senv)
+        return tuple(sp(x, senv) for x in e)
+    out = []
+    for f in fns:
+        if f[1] in key_fns:
+            continue
+        pos = spec_fns.get(f[1])
+        if not pos:
+            out.append((f[0], f[1], f[2], f[3], sp(f[4], {}), f[5]))
+            continue
+        import itertools
+        for combo in itertools.product(*[list(spec[f[2][i][1]].items()) for i in pos]):
+            params, senv, suffix = [], {}, ""
+            ci = 0
+            for i, (pn, pt, mt_) in enumerate(f[2]):
+                if i in pos:
+                    variant, ptys = combo[ci]
+                    ci += 1
+                    pay = [(f"{pn}_{j}", t_, False) for j, t_ in enumerate(ptys)]
+                    senv[pn] = (pt, variant, [("var", q[0]) for q in pay])
+                    params.extend(pay)
+                    suffix += "_" + variant
+                else:
+                    params.append((pn, pt, mt_))
+            out.append((f[0], f[1] + suffix, params, f[3], sp(f[4], senv), f[5]))
+    return out
 
 
 # ------------------------------------------------------------------ translation
@@ -984,6 +1156,25 @@ class Gen:
             return (f"({{ {', '.join(parts)} }} : {e[1]})", e[1])
         if e[0] == "mcall" and e[2] == "clone" and not e[3]:
             return self.pure(e[1], env)
+        if e[0] == "mcall" and e[2] == "as_ref" and not e[3]:
+            l, t = self.pure(e[1], env)
+            if not t.startswith("Option<"):
+                raise Unsupported("as_ref of " + t)
+            return (l, t)      # `Option<T>` seen as `Option<&T>`: the same value
+        if e[0] == "mcall" and e[2] == "map_or" and len(e[3]) == 2 and self.strip(e[3][1])[0] == "closure" \
+                and len(self.strip(e[3][1])[1]) == 1:
+            l, t = self.pure(e[1], env)
+            if not t.startswith("Option<"):
+                raise Unsupported("map_or of " + t)
+            cl = self.strip(e[3][1])
+            dl, dt = self.pure(e[3][0], env)
+            if t == "Option<?>":
+                return (dl, dt)        # the receiver is the literal `None` on this path
+            x_ = self.fresh(cl[1][0] + "_")
+            bl, bt = self.pure(cl[2], dict(env, **{cl[1][0]: (x_, t[7:-1])}))
+            if bt in NATTY:
+                dl = as_nat(dl, dt)
+            return (f"(Option.elim {l} {dl} (fun {x_} => {bl}))", bt)
         if e[0] == "mcall" and e[2] == "address" and not e[3]:
             l, t = self.pure(e[1], env)
             if t == "MuxedAddress":
@@ -1650,6 +1841,18 @@ class Gen:
                         raise Unsupported("get_unchecked with an index of type " + it_)
                     v = self.fresh("v")
                     return f"(Comp.unwrap ({r}[{as_nat(il, it_)}]?) fun {v} =>\n {k(v, rt_[4:-1])})"
+                if rt_.startswith("Option<") and name == "and_then" and len(args) == 1 and self.strip(args[0])[0] == "closure" \
+                        and len(self.strip(args[0])[1]) == 1:
+                    # `opt.and_then(|x| body)` with a body that computes an Option (and may read the store)
+                    cl = self.strip(args[0])
+                    pv = cl[1][0]
+                    nb = self.fresh(pv + "_")
+                    seen = {}
+                    def ksome2(a, t):
+                        seen["t"] = t
+                        return k(a, t)
+                    some_code = self.tr(cl[2], dict(env, **{pv: (nb, rt_[7:-1])}), ksome2, ret)
+                    return f"(optCase {r}\n (fun {nb} =>\n {some_code})\n ({k('none', seen.get('t', 'Option<?>'))}))"
                 if rt_.startswith("Option<") and name == "expect" and len(args) == 1 and self.strip(args[0])[0] == "str":
                     v = self.fresh("v")
                     return f"(Comp.unwrap {r} fun {v} =>\n {k(v, rt_[7:-1])})"
@@ -1702,9 +1905,6 @@ class Gen:
         def go(i):
             if i == len(real):
                 al = ([recv] if recv is not None else []) + [a for a in atoms if a is not None]
-                if (ns, name) in self.fuel_fns:
-                    al = ["fuel"] + al
-                    self.uses_fuel = True
                 if ns in getattr(self, "store_ns", set()):
                     if "$st" not in env:
                         raise Unsupported("call of a store function outside a store function")
@@ -1715,6 +1915,9 @@ class Gen:
                 if ns in getattr(self, "reads_ns", set()):
                     al = ["envr" if ns == self.cur_ns else f"envr.{ns.lower()}"] + al
                     self.uses_reads = True
+                if (ns, name) in self.fuel_fns:
+                    al = ["fuel"] + al        # `fuel` is the first parameter of every definition that takes it
+                    self.uses_fuel = True
                 v = self.fresh()
                 return f"(Comp.bind ({ns}.{name} {' '.join(al)}) fun {v} =>\n {k(v, rty)})"
             a = self.strip(real[i])
@@ -1772,6 +1975,7 @@ class Gen:
                 return k_end(env)
             s = stmts[i]
             if s[0] == "lettuple":
+                wc_ = self.writer_call(s[2]) if getattr(self, "store", None) else None
                 def klt(a, t):
                     if not t.startswith("tuple<"):
                         raise Unsupported("tuple pattern on " + t)
@@ -1779,10 +1983,15 @@ class Gen:
                     if len(tys) != len(s[1]):
                         raise Unsupported("tuple pattern arity")
                     env2 = dict(env)
+                    base_ = f"{a}.1" if wc_ is not None else a     # a state-changing call returns (value, store)
                     for j, (nm_, ty_) in enumerate(zip(s[1], tys)):
-                        proj = a + "".join(".2" for _ in range(j)) + (".1" if j < len(tys) - 1 else "")
+                        proj = base_ + "".join(".2" for _ in range(j)) + (".1" if j < len(tys) - 1 else "")
                         env2[nm_] = (proj, ty_)
+                    if wc_ is not None:
+                        env2["$st"] = (f"{a}.2", "Store")
                     return go(i + 1, env2)
+                if wc_ is not None:
+                    self._writer_ok = True
                 return self.tr(s[2], env, klt, ret)
             if s[0] == "expr" and self.strip(s[1])[0] == "match" and any(p_[0] == "vstruct" for p_, _ in self.strip(s[1])[2]):
                 # `match x { Enum::Variant(Struct { a, b }) => A, _ => B }` as a statement: the named eliminator
@@ -2128,6 +2337,14 @@ class Gen:
                     def kil(a, t):
                         if not t.startswith("Option<"):
                             raise Unsupported("if-let on " + t)
+                        if t == "Option<?>" and a == "none":
+                            # the scrutinee is the literal `None` on this path: only the else part runs
+                            if eb is None:
+                                return go(i + 1, env)
+                            eb0_ = self.as_stmts(eb)
+                            if eb0_[0] != "block" or eb0_[2] is not None:
+                                raise Unsupported("else of an if-let statement")
+                            return self.tr_stmts(eb0_[1], env, after, ret)
                         nb = self.fresh(nm + "_")
                         some_c = self.tr_stmts(tb[1], dict(env, **{nm: (nb, t[7:-1])}), after, ret)
                         if eb is None:
@@ -2205,7 +2422,14 @@ class Gen:
         tup = lambda en: "(" + ", ".join(en[m][0] for m in muts) + ")"
         rd = self.cur_ns in getattr(self, "reads_ns", set())
         fu = "fuel envr" if rd else "fuel"
-        again = lambda en: f"{name} {fu} {' '.join(en[v][0] for v in params)}"
+        st_const = "$st" in env      # a reader loop inside a state-passing namespace: the store is a constant parameter
+        if st_const:
+            if (self.cur_ns, self.cur_fn) in getattr(self, "writers", set()):
+                raise Unsupported("while loop inside a state-changing function")
+            penv["$st"] = ("st_", "Store")
+            plist = f"(st_ : {self.cur_ns}.Store) " + plist
+        stc = lambda en: (en["$st"][0] + " ") if st_const else ""
+        again = lambda en: f"{name} {fu} {stc(en)}{' '.join(en[v][0] for v in params)}"
         code = self.branch(s[1], penv, lambda: self.tr_stmts(body[1], penv, again, ret), lambda: (f"Comp.ok (some {tup(penv)})" if opt else f"Comp.ok {tup(penv)}"), ret)
         self.aux.append(f"def {name} (fuel : Nat) {'(envr : ' + self.cur_ns + '.Reads) ' if rd else ''}{plist} : Comp ({'Option (' + rty + ')' if opt else rty}) :=\n match fuel with\n | 0 => Comp.panic\n | fuel + 1 =>\n {code}\n")
         self.uses_fuel = True
@@ -2215,8 +2439,8 @@ class Gen:
             proj = st if len(muts) == 1 else st + "".join(".2" for _ in range(jx)) + (".1" if jx < len(muts) - 1 else "")
             env2[m] = (proj, env[m][1])
         if not opt:
-            return f"(Comp.bind ({name} {fu} {' '.join(env[v][0] for v in params)}) fun {st} =>\n {k_after(env2)})"
-        return (f"(Comp.bind ({name} {fu} {' '.join(env[v][0] for v in params)}) fun {r} =>\n"
+            return f"(Comp.bind ({name} {fu} {stc(env)}{' '.join(env[v][0] for v in params)}) fun {st} =>\n {k_after(env2)})"
+        return (f"(Comp.bind ({name} {fu} {stc(env)}{' '.join(env[v][0] for v in params)}) fun {r} =>\n"
                 f" (Comp.tryOpt {r} fun {st} =>\n {k_after(env2)}))")
 
     def tr_for(self, s, env, k_after, ret):
@@ -2556,6 +2780,15 @@ FILES_CTIF = [("TopicsF", "packages/tokens/src/rwa/claim_topics_and_issuers/mod.
                ["get_claim_topics", "get_trusted_issuers", "get_claim_topic_issuers", "get_trusted_issuer_claim_topics",
                 "is_trusted_issuer", "has_claim_topic", "add_claim_topic", "remove_claim_topic", "add_trusted_issuer",
                 "remove_trusted_issuer", "update_issuer_claim_topics", "validate_topics_exist", "validate_no_duplicate_topics"])]
+STORE_VOTESF = {"VotesF": {"Delegatee": (["Address"], "Address"), "NumCheckpoints": (["Address"], "u32"),
+                           "DelegateCheckpoint": (["Address", "u32"], "Checkpoint"), "NumTotalSupplyCheckpoints": ([], "u32"),
+                           "TotalSupplyCheckpoint": (["u32"], "Checkpoint"), "VotingUnits": (["Address"], "u128")}}
+READS_VOTESF = {"VotesF": {"ledger_sequence": "u32", "authorized": "addr2bool"}}
+FILES_VOTESF = [("VotesF", "packages/governance/src/votes/storage.rs",
+                 ["get_checkpoint", "get_votes", "get_votes_at_checkpoint", "get_total_supply", "get_total_supply_at_checkpoint",
+                  "get_delegate", "num_checkpoints", "get_voting_units", "delegate", "transfer_voting_units", "set_voting_units",
+                  "move_delegate_votes", "lookup_checkpoint_at", "apply_checkpoint_op", "checkpoint_storage_key",
+                  "get_num_checkpoints", "push_checkpoint"])]
 STORE_ISS = {"Issuer": {"ClaimNonce": (["Address", "u32"], "u32"), "RevokedClaim": (["Bytes32"], "bool")}}
 READS_ISS = {"Issuer": {"network_id": "Bytes", "current_contract_address": "Address", "ledger_timestamp": "u64",
                         "to_xdr": ("purefn", ["Address"], "Bytes"), "keccak256": ("purefn", ["Bytes"], "Bytes32"),
@@ -2727,7 +2960,7 @@ def deps(e, acc):
 
 def translate(repo, FILES=FILES, DEPS=(), imports=("OZ.Model.RustSem",), reads=None, structs=None, tymaps=None,
               store=None, impl_types=None, stubs=None, rename_types=None, key_params=None, fn_prefix=None,
-              allow_traits=(), penums=None, let_stubs=None, writer_stubs=()):
+              allow_traits=(), penums=None, let_stubs=None, writer_stubs=(), spec_enums=None, key_fns=()):
     """DEPS: files translated elsewhere whose signatures are needed (parsed, not emitted);
     reads: {namespace: {getter name: Rust type}} — the side-effect-free state getters (`Self::name(e)`)
     that become fields of the record `<namespace>.Reads` passed to every function of that namespace"""
@@ -2736,6 +2969,8 @@ def translate(repo, FILES=FILES, DEPS=(), imports=("OZ.Model.RustSem",), reads=N
           [f"import {m}" for m in imports] + \
           ["set_option linter.unusedVariables false", "namespace OZ.Gen", "open OZ.Rs", ""]
     sigs, consts, parsed, enums, enum_home = {}, {}, [], {}, set()
+    VTUPLE_ENUMS.clear()
+    VTUPLE_ENUMS.update((spec_enums or {}).keys())
     emit_ns = {ns for ns, _, _ in FILES}
     for ns, rel, only in list(DEPS) + list(FILES):
         src = open(os.path.join(repo, rel)).read()
@@ -2761,6 +2996,8 @@ def translate(repo, FILES=FILES, DEPS=(), imports=("OZ.Model.RustSem",), reads=N
                 if pre:
                     it = (it[0], pre + it[1]) + tuple(it[2:])
                 fns.append(it)
+        if spec_enums and fns:
+            fns = specialize_enums(fns, spec_enums, set(key_fns))
         for f in fns:
             self_ty = f[5][0] if f[5] else None
             ptys = [(self_ty if t == "Self" else t) for (_, t, _) in f[2] if t not in OPAQUE]
@@ -3256,6 +3493,10 @@ def main():
                                           "Context": "Controller.Context"})
         elif "--issuer" in sys.argv:
             txt = translate(repo, FILES_ISS, reads=READS_ISS, store=STORE_ISS)
+        elif "--votes-full" in sys.argv:
+            txt = translate(repo, FILES_VOTESF, reads=READS_VOTESF, structs=STRUCTS_VOTES, store=STORE_VOTESF,
+                            spec_enums={"CheckpointType": {"TotalSupply": [], "Account": ["Address"]}, "CheckpointOp": {"Add": [], "Sub": []}},
+                            key_fns=("checkpoint_storage_key",), rename_types={"Checkpoint": "VotesF.Checkpoint"})
         elif "--topics-full" in sys.argv:
             txt = translate(repo, FILES_CTIF, reads={"TopicsF": {}}, store=STORE_CTIF)
         elif "--topics" in sys.argv:
